@@ -4,6 +4,7 @@ from c04 import group_sort
 import itertools
 
 ASG = ['=', '+=', '-=', '*=', '/=']
+OPN = {'=': 'set', '+=': 'add', '-=': 'sub', '*=': 'mul', '/=': 'div'}
 
 
 def pair(t, name, params, lazy, eager, out_dims, mode='EXACT', dest_init='sym'):
@@ -57,6 +58,32 @@ def witnesses(tier, seed):
             P = [('a', [n, n]), ('b', [n, n])]
             W.append(pair(t, 'inv.set.%d' % n, P, 'c = inv(a);', '%s t = inverse(a); c = t;' % T([n, n]), [n, n]))
             W.append(pair(t, 'inv.times.%d' % n, P, 'c = inv(a) % b;', '%s t = inverse(a); c = matmul(t,b);' % T([n, n]), [n, n]))
+        # every lazy node kind x every operand kind x every consuming context: each (node, assignment) pair has its own assign_* overload
+        for (M, K, N) in ([(3, 4, 5), (4, 4, 4)] if quick else [(3, 4, 5), (4, 4, 4), (2, 3, 2), (5, 2, 7), (8, 8, 8)]):
+            TM = T([M, N])
+            nodes = [
+                ('mm_tt', [('a', [M, K]), ('b', [K, N])], 'a % b', '%s t = matmul(a,b);' % TM),
+                ('mm_te', [('a', [M, K]), ('bt', [N, K])], 'a % trans(bt)', '%s tb = transpose(bt); %s t = matmul(a,tb);' % (T([K, N]), TM)),
+                ('mm_et', [('at', [K, M]), ('b', [K, N])], 'trans(at) % b', '%s ta = transpose(at); %s t = matmul(ta,b);' % (T([M, K]), TM)),
+                ('mm_ee', [('a', [M, K]), ('a2', [M, K]), ('bt', [N, K])], '(a + a2) % trans(bt)', '%s sa = a + a2; %s tb = transpose(bt); %s t = matmul(sa,tb);' % (T([M, K]), T([K, N]), TM)),
+                ('mm_ts', [('a', [M, K]), ('b', [K, N]), ('b2', [K, N])], 'a % (b + b2)', '%s sb = b + b2; %s t = matmul(a,sb);' % (T([K, N]), TM)),
+                ('mm_st', [('a', [M, K]), ('a2', [M, K]), ('b', [K, N])], '(a - a2) % b', '%s sa = a - a2; %s t = matmul(sa,b);' % (T([M, K]), TM)),
+                ('tr_t', [('at', [N, M])], 'trans(at)', '%s t = transpose(at);' % TM),
+                ('tr_e', [('at', [N, M]), ('at2', [N, M])], 'trans(at + at2)', '%s s0 = at + at2; %s t = transpose(s0);' % (T([N, M]), TM)),
+            ]
+            if M == N and M <= 4:
+                nodes += [('inv_t', [('a', [M, M])], 'inv(a)', '%s t = inverse(a);' % TM), ('inv_e', [('a', [M, M]), ('a2', [M, M])], 'inv(a + a2)', '%s s0 = a + a2; %s t = inverse(s0);' % (TM, TM)),
+                          ('cof_t', [('a', [M, M])], 'cof(a)', '%s t = cofactor(a);' % TM), ('adj_t', [('a', [M, M])], 'adj(a)', '%s t = adjoint(a);' % TM)]
+            for (nn, P, lazy, eager) in nodes:
+                PP = P + [('d', [M, N])]
+                for op in ASG:
+                    W.append(pair(t, 'ctx.%s.%s.%dx%dx%d' % (nn, OPN[op], M, K, N), PP, 'c %s %s;' % (op, lazy), '%s c %s t;' % (eager, op), [M, N]))
+                W.append(pair(t, 'ctx.%s.dminus.%dx%dx%d' % (nn, M, K, N), PP, 'c = d - %s;' % lazy, '%s c = d - t;' % eager, [M, N]))
+                W.append(pair(t, 'ctx.%s.minusd.%dx%dx%d' % (nn, M, K, N), PP, 'c = %s - d;' % lazy, '%s c = t - d;' % eager, [M, N]))
+                W.append(pair(t, 'ctx.%s.dplus.%dx%dx%d' % (nn, M, K, N), PP, 'c = d + %s;' % lazy, '%s c = d + t;' % eager, [M, N]))
+                W.append(pair(t, 'ctx.%s.submix.%dx%dx%d' % (nn, M, K, N), PP, 'c -= d - %s;' % lazy, '%s c -= d - t;' % eager, [M, N], mode='ALG'))
+                W.append(pair(t, 'ctx.%s.addmix.%dx%dx%d' % (nn, M, K, N), PP, 'c += d * (%s);' % lazy, '%s c += d * t;' % eager, [M, N], mode='ALG'))
+                W.append(pair(t, 'ctx.%s.neg.%dx%dx%d' % (nn, M, K, N), PP, 'c = -(%s);' % lazy, '%s c = -t;' % eager, [M, N]))
         # chains of products: the library may re-associate; compared algebraically with the left-to-right product
         exts = [2, 3, 5, 8]
         for L in (3, 4, 5):
